@@ -141,6 +141,9 @@ func genC17FromChannel(g *Gen) *Scn {
 	sc.SetInt("cap", g.Range(0, 3))
 	sc.SetInt("subat", g.PickInt(0, 0, 1, 2))
 	sc.SetInt("subctx", g.PickInt(0, 0, 0, 1, 2, 3, 5))
+	if g.Bool(0.03) {
+		sc.SetInt("nilchan", 1)
+	}
 	if g.Bool(0.5) {
 		sc.SetInt("cut", 1)
 		sc.SetInt("at", g.Range(0, 2*c17Span(spec)+4))
@@ -829,6 +832,37 @@ func c17Ms(d time.Duration) string {
 func runC17FromChannel(e *Env) {
 	sc := e.Sc
 	c17MustBeValid(sc)
+	if sc.Int("nilchan", 0) == 1 {
+		// a nil channel is never closed and never delivers: the observable stays silent and open until it is
+		// unsubscribed ("completes when the channel is closed" - this one never is)
+		var none <-chan int
+		rec := e.NewRec("o")
+		h := e.Subscribe(ro.FromChannel(none), rec.Observer(), nil)
+		e.SettleFor(10 * Unit)
+		if e.K.Capped() {
+			return
+		}
+		if !h.Ret() || h.Sub() == nil {
+			e.Violate("C17", "subscribe-blocks", "FromChannel(nil): Subscribe did not return")
+			return
+		}
+		if len(rec.Events) != 0 || h.Sub().IsClosed() {
+			e.Violate("C17", "complete-before-close", fmt.Sprintf("FromChannel(nil): the channel was never closed, yet the observer got [%s] and IsClosed()=%v", rec.Trace(), h.Sub().IsClosed()))
+			return
+		}
+		e.Go("unsubscriber", func() { h.Sub().Unsubscribe() })
+		e.SettleFor(10 * Unit)
+		c17Quiesce(e)
+		if e.K.Capped() {
+			return
+		}
+		for _, a := range e.K.Actors() {
+			if a.Lib && !a.Done() {
+				e.Violate("C17", "reader-leak", fmt.Sprintf("FromChannel(nil): Unsubscribe returned but library goroutine %s is still %s", a.Site, a.State()))
+			}
+		}
+		return
+	}
 	capacity := sc.Int("cap", 0)
 	prog := sc.Sources[0].Script
 	ch := make(chan int, capacity)
